@@ -302,10 +302,10 @@ Definition nth_time (times : list Z) (i : nat) : Z := nth i times 0.
 
 (* label ids stand for label names: 2*i for `label_<offset of instruction i>`, 2*k+1 for
    `label_<offset of instruction k>r`.  The "r" label of target i is named after the previous
-   instruction i-1; for target 0 there is no previous instruction and the code uses offset 0 again
-   (early.rs:484 `0 => (0, 0)`), i.e. the same name as the "r" label of target 1. *)
+   instruction i-1; for target 0 there is no previous instruction and the plain name `label_0` is
+   used (early.rs generate_label_at_offset, `prev_offset == next_offset`; fix 3f82254). *)
 Definition label_id (is_r : bool) (i : nat) : Z :=
-  if is_r then match i with O => 1 | S k => 2 * Z.of_nat k + 1 end else 2 * Z.of_nat i.
+  if is_r then match i with O => 0 | S k => 2 * Z.of_nat k + 1 end else 2 * Z.of_nat i.
 
 Definition label_for (times : list Z) (jumps : list (nat * option Z)) (i : nat) : option lab :=
   let args := map snd (filter (fun j => Nat.eqb (fst j) i) jumps) in
